@@ -1,23 +1,3 @@
 #!/bin/sh
 # Build the framework from files on disk only (offline).
-set -e
-cd "$(dirname "$0")"
-export GOFLAGS=-mod=mod GOPROXY=off GOSUMDB=off GOTOOLCHAIN=local
-mkdir -p harness/bin evidence replays
-cp /repo/go.sum harness/go.sum
-CLAIMED=$(python3 -c "import sys; sys.path.insert(0,'lib'); import props; print(' '.join(sorted(p.lower() for p,c in props.PROPS.items() if not c.get('unclaimed'))))")
-GENS=$(python3 -c "import sys; sys.path.insert(0,'lib'); import props; print(' '.join(sorted({g for p in props.PROPS.values() for g in p.get('gen',[])})))")
-(cd harness && for p in $CLAIMED; do go build -tags verif -o bin/$p ./cmd/$p; done)
-# regenerate lean/M3d/Gen from /repo before the first lake build
-if [ -n "$GENS" ]; then
-  (cd harness && go build -tags verif -o bin/extract ./cmd/extract)
-  for g in $GENS; do
-    harness/bin/extract -gen "$g" -repo /repo -out "lean/M3d/Gen/$g.lean"
-  done
-fi
-TARGETS=""
-for p in $CLAIMED; do
-  P=$(echo "$p" | tr c C)
-  TARGETS="$TARGETS M3d.Props.$P drv_$p"
-done
-(cd lean && lake build M3d $TARGETS)
+cd "$(dirname "$0")" && exec ./check --setup
